@@ -64,10 +64,9 @@
      AllowLocal   whether the generative model explores local absorption inside Extractor/ReadFile
      Deviations   named as-built gaps:
                   "Cli!PartialStdout"   json.dump streams to stdout (fixed by proposed_fixes/c01-cli-atomic-stdout.diff)
-                  "Ole!VectorCountLoop" OPEN finding KF-C01-01: olefile 0.47 (third party, under read_doc / read_ppt /
-                                        read_xls -> ole.get_metadata()) iterates `count` times over a VT_VECTOR
-                                        property whose element type it does not decode, without consuming input:
-                                        a 4-byte count keeps the call busy for up to 2^32 iterations (G_Spin)
+                  "Ole!VectorCountLoop", "Pdf!XrefPrevCycle", "Pdf!ParentCycleNoResources": OPEN findings
+                                        KF-C01-01..03, loops in third-party parsers (olefile 0.47, pypdf 6.5.0)
+                                        under read_doc / read_ppt / read_xls / read_pdf; see G_Spin
      Mutations    hypothetical breakages for the sensitivity runs: "NoWrapper", "WrongLegacyClass",
                   "EntryReraises", "CliNoCatch"                                                   *)
 EXTENDS Naturals, Sequences, FiniteSets, TLC
@@ -320,13 +319,26 @@ G_PartialPrint ==
     /\ flog' = Append(flog, [d |-> Depth, t |-> "Cli", k |-> "-", st |-> "print", c |-> "Other", y |-> yielded, ml |-> 0])
     /\ UNCHANGED <<yielded, escaped, out, stderr, exit, phase, plan, ctl>>
 
-\* as built (KF-C01-01): a legacy-Office extractor hands a property set with a huge vector count to olefile and
-\* does not come back within any budget proportional to the input: the call neither yields nor raises
+\* as built, OPEN findings: third-party parsers under an extractor that do not come back within any budget
+\* proportional to the input -- the call neither yields nor raises.  One named deviation per input shape:
+\*   KF-C01-01 Ole!VectorCountLoop          read_doc / read_ppt / read_xls -> olefile get_metadata(): VT_VECTOR property
+\*                                          of an element type olefile does not decode, with a huge element count
+\*   KF-C01-02 Pdf!XrefPrevCycle            read_pdf -> pypdf PdfReader(): trailer /Prev chain revisits an xref offset
+\*   KF-C01-03 Pdf!ParentCycleNoResources   read_pdf -> pypdf extract_text(): page without /Resources, /Parent chain cyclic
+SpinDeviations == {"Ole!VectorCountLoop", "Pdf!XrefPrevCycle", "Pdf!ParentCycleNoResources"}
+SpinKinds(dv) == IF dv = "Ole!VectorCountLoop" THEN LegacyKinds ELSE {"pdf"}
+\* domain predicates on the evidence the harness reads from the input (fields of the Timeout event)
 InDomain_KF_C01_01(e) == e.ole /\ e.vec /\ ~e.known /\ e.cntk >= 1024      \* count >= 2^20 elements
+InDomain_KF_C01_02(e) == e.pdf /\ e.prevcycle
+InDomain_KF_C01_03(e) == e.pdf /\ e.parentcycle
+InDomain(dv, e) == CASE dv = "Ole!VectorCountLoop" -> InDomain_KF_C01_01(e)
+                     [] dv = "Pdf!XrefPrevCycle" -> InDomain_KF_C01_02(e)
+                     [] dv = "Pdf!ParentCycleNoResources" -> InDomain_KF_C01_03(e)
+                     [] OTHER -> FALSE
 G_Spin ==
-    /\ "Ole!VectorCountLoop" \in Deviations
     /\ phase = "run" /\ Depth > 0 /\ pending = None
-    /\ Top.t = "Extractor" /\ Top.k \in LegacyKinds /\ C.pc = "try"
+    /\ Top.t = "Extractor" /\ C.pc = "try"
+    /\ \E dv \in Deviations \cap SpinDeviations : Top.k \in SpinKinds(dv)
     /\ phase' = "spin"
     /\ UNCHANGED <<stack, pending, yielded, escaped, out, stdout, stderr, exit, gen>>
 
